@@ -124,6 +124,8 @@ MUTANTS = [
     (_DM, "DMRG._set_cutoff_seq", "self._cutoffs = itertools.chain(bds, itertools.repeat(bds[-1]))", "self._cutoffs = itertools.chain(bds, itertools.repeat(bds[0]))", "expect-fail"),
     (_DM, "DMRG._set_cutoff_seq", "self._cutoffs = itertools.chain(bds, itertools.repeat(bds[-1]))", "self._bond_dims = itertools.chain(bds, itertools.repeat(bds[-1]))", "expect-fail"),
     (_DM, "DMRG._set_cutoff_seq", "bds = (cutoffs,) if isinstance(cutoffs, Real) else tuple(cutoffs)", "bds = (cutoffs / 2,) if isinstance(cutoffs, Real) else tuple(cutoffs)", "expect-fail"),
+    # the independently seeded change C10-2: the schedule keeps repeating its maximum instead of its last entry
+    (_DM, "DMRG._set_bond_dim_seq", "itertools.repeat(bds[-1]))\n\n    def _set_cutoff_seq", "itertools.repeat(max(bds)))\n\n    def _set_cutoff_seq", "expect-fail"),
     # the repaired defects put back (F26, F27, F28)
     (_T2, "._contract_boundary_core", "                            if (max_bond is None) or (\n                                bonds_size(t1, tn) > max_bond\n                            ):", "                            if bonds_size(t1, tn) > max_bond:", "expect-fail"),
     (_DM, "DMRG._set_cutoff_seq", "bds = (cutoffs,) if isinstance(cutoffs, Real) else tuple(cutoffs)", "bds = (cutoffs,) if isinstance(cutoffs, float) else tuple(cutoffs)", "expect-fail"),
